@@ -205,6 +205,11 @@ def rule_t3(repo, col):
     for p in paths:
         acc = p.env.get("score")
         if acc is None:
+            if p.end in ("continue", "fall") and p.conds:
+                col.fail("T3", m, lp, "evaluate skips a queried literal without adding P(r) * utility(r) (when %s): every key of the result is a literal whose utility was declared, and a "
+                         "literal that is skipped contributes nothing - utility(\\+broken, 10) without a utility on broken itself is silently dropped and the search optimises the wrong score"
+                         % ", ".join("%s is %s" % (s_, t_) for s_, t_, _ in p.conds), construct="score accumulation: literal skipped", function="evaluate")
+                return
             raise AnalysisError("evaluate: score accumulation not found on a path of the scoring loop")
         got = acc.replace(" ", "").replace("(", "").replace(")", "")
         cd = dict((s_, t) for s_, t, _ in p.conds)
